@@ -5,7 +5,7 @@ from hypothesis import strategies as st
 
 # name -> type; the decorated function takes all ARGS; the condition lambda takes the ones it uses
 ARGS = {"x": "int", "n": "int", "s": "str", "xs": "ilist", "ys": "ilist", "ss": "iset", "d": "sdict", "t": "itup",
-        "o": "obj", "m": "mat", "id": "int"}
+        "o": "obj", "m": "mat", "id": "int", "G": "int"}
 CLOSURE = {"C": "int", "CS": "str", "CL": "ilist"}
 GLOBALS = {"G": "int", "GS": "str", "GL": "ilist", "Y": "int"}
 EXTRA_ARGS = {"Y": "int"}  # a parameter of the function that the condition never takes; collides with the global Y
@@ -48,7 +48,9 @@ class Gen:
         return k
 
     def maybe_probe(self, text):
-        if self.probes and self.coin(4):
+        # probes only outside comprehension scopes: C07(d) is about short-circuit evaluation of the condition,
+        # not about comprehension bodies over empty iterables
+        if self.probes and not self.targets and self.coin(4):
             self.nprobe += 1
             return "p(%d, %s)" % (self.nprobe, text)
         return text
@@ -106,7 +108,20 @@ class Gen:
     def t_bool(self, depth):
         if depth <= 0:
             return "%s %s %s" % (self.t_int(0), self.pick(CMP_OPS), self.t_int(0))
-        k = self.draw(st.integers(0, 11))
+        k = self.draw(st.integers(0, 14))
+        if k == 12:
+            nm = self.name("int")
+            return self.pick(["(%s is None)", "(ident(%s) is None)", "(%s is not None)"]) % nm
+        if k == 13:
+            self.features.add("all-any")
+            tgt = self.pick([t for t in ["v", "u", "q"] if t not in self.targets])
+            its = "[%s]" % ", ".join(self.expr("ilist", depth - 1) for _ in range(self.draw(st.integers(1, 3))))
+            return "all(len(%s) %s %s for %s in %s)" % (tgt, self.pick(["<", ">", "!="]), self.expr("int", 0), tgt, its)
+        if k == 14:
+            self.features.add("all-any")
+            tgt = self.pick([t for t in ["v", "u", "q"] if t not in self.targets])
+            its = "[%s]" % ", ".join(self.expr("str", depth - 1) for _ in range(self.draw(st.integers(1, 3))))
+            return "all(%s %s %s for %s in %s)" % (tgt, self.pick(["!=", "<", "=="]), self.expr("str", 0), tgt, its)
         if k <= 1:
             n = self.draw(st.integers(1, 3))
             parts = [self.expr("int", depth - 1)]
@@ -252,7 +267,8 @@ class Gen:
             saved = dict(self.targets)
             self.targets[tgt] = "int"
             try:
-                cond = " if %s" % self.expr("bool", max(depth - 1, 0))
+                for _ in range(self.draw(st.integers(1, 2))):
+                    cond += " if %s" % self.expr("bool", max(depth - 1, 0))
             finally:
                 self.targets = saved
         return tgt, it, cond
@@ -290,8 +306,10 @@ GUARDED = [
 
 
 @st.composite
-def st_inputs(draw, long_values=False):
+def st_inputs(draw, long_values=None):
     """Concrete argument values (JSON-able description, see build_inputs)."""
+    if long_values is None:
+        long_values = draw(st.integers(0, 4)) == 0
     ints = st.integers(-3, 12)
     lst = st.lists(ints, max_size=5 if not long_values else 60)
     text = st.text(ALPHABET, max_size=6 if not long_values else 300)
@@ -308,6 +326,7 @@ def st_inputs(draw, long_values=False):
         "ys": draw(lst), "ss": sorted(draw(st.sets(ints, max_size=4))), "d": {k: draw(ints) for k in d_keys},
         "t": draw(st.lists(ints, max_size=3)), "o": node(2), "m": [[draw(ints), draw(ints)], [draw(ints), draw(ints)]],
         "id": draw(st.sampled_from([None, 0, 3, 4])), "Y": draw(st.sampled_from([-1000, 7, 10])),
+        "G": draw(st.sampled_from([None, 5, 6, -2])),
     }
 
 
@@ -320,6 +339,7 @@ def build_inputs(desc):
         return Node(n["n"], n["items"], node(n["child"]))
 
     out = dict(desc)
+    out.setdefault("G", 5)  # cases recorded before the parameter G existed
     out["ss"] = set(desc["ss"])
     out["t"] = tuple(desc["t"])
     out["o"] = node(desc["o"])
